@@ -3,6 +3,8 @@ package main
 import (
 	"fmt"
 	"go/types"
+	"sort"
+	"strings"
 
 	"golang.org/x/tools/go/ssa"
 )
@@ -75,6 +77,7 @@ func (e *Engine) verifyFunc(fn *ssa.Function, ct *Contract, prop string) *Run {
 			r.emit(o.st, "ensures:"+cl.Label, "ensures", ct.clauseProps(cl), g)
 		}
 		if ct.Frame {
+			r.heapFrame(o.st, ct)
 			mod := map[string]bool{}
 			for _, m := range ct.Modifies {
 				if m.IsAtom() {
@@ -118,4 +121,130 @@ func (r *Run) freshFree(st *State, fv *ssa.FreeVar) *Val {
 		return &Val{K: KPtr, Ty: fv.Type(), P: &Ptr{Kind: PCell, Cell: c, Root: pt.Elem()}}
 	}
 	return r.freshVal(st, fv.Type(), fv.Name())
+}
+
+// heapFrame emits, for every symbolic-heap array that changed, the obligation that the change is
+// confined to the locations named in the contract's modifies clause. Objects allocated by the
+// function itself have negative references and are exempt.
+func (r *Run) heapFrame(st *State, ct *Contract) {
+	env := &Env{r: r, st: r.entry.clone(), vars: r.vars, ctx: r.name + "/modifies"}
+	covered := map[string][]string{} // array name -> refs that may change; "*" = whole array
+	add := func(name, ref string) { covered[name] = append(covered[name], ref) }
+	for _, m := range ct.Modifies {
+		if m.IsAtom() {
+			continue
+		}
+		switch m.Head() {
+		case "heap":
+			add("H "+m.List[1].Atom, "*")
+		case "content":
+			v := r.eval(env, m.List[1])
+			if v.K == KSlice {
+				add("Hb", v.Ref)
+			}
+		case "elems":
+			v := r.eval(env, m.List[1])
+			if v.K == KSlice {
+				et := v.Ty.Underlying().(*types.Slice).Elem()
+				for _, lf := range structLeaves(et) {
+					add(sliceArrayName(et, lf.name), v.Ref)
+				}
+			}
+		case ".":
+			base := r.eval(env, m.List[1])
+			for _, f := range m.List[2 : len(m.List)-1] {
+				base = r.selectField(env, base, f.Atom, m)
+			}
+			if base.K == KPtr && base.P.Kind == PHeap {
+				t := fieldType(base.P.Root, base.P.Path)
+				if p, ok := fieldPath(t, m.List[len(m.List)-1].Atom); ok {
+					full := append(append([]int{}, base.P.Path...), p...)
+					ft := fieldType(base.P.Root, full)
+					name := heapArrayName(base.P.Root, fieldNames(base.P.Root, full))
+					if _, isSlice := ft.Underlying().(*types.Slice); isSlice {
+						for _, sfx := range []string{"#ref", "#off", "#len", "#cap"} {
+							add(name+sfx, base.P.T)
+						}
+					} else if _, isStruct := ft.Underlying().(*types.Struct); isStruct && !isOpaqueNamed(ft) {
+						for _, lf := range structLeaves(ft) {
+							add(heapArrayName(base.P.Root, fieldNames(base.P.Root, full)+"."+lf.name), base.P.T)
+						}
+					} else {
+						add(name, base.P.T)
+					}
+				}
+			}
+		case "mapof":
+			v := r.eval(env, m.List[1])
+			if mt, ok := v.Ty.Underlying().(*types.Map); ok {
+				inN, lenN := mapArrNames(mt)
+				add(inN, v.T)
+				add(lenN, v.T)
+				base := "M " + typeName(mt.Key()) + "->" + typeName(mt.Elem()) + " val"
+				add(base+"*", v.T)
+			}
+		}
+	}
+	var names []string
+	for n := range st.heap {
+		names = append(names, n)
+	}
+	sort.Strings(names)
+	for _, name := range names {
+		cur := st.heap[name]
+		old, had := r.entry.heap[name]
+		if !had || old == "" {
+			old = sym(name + "@0")
+			if !r.declSet[old] {
+				if cur == "" {
+					continue // never materialised on this path
+				}
+				// first use happened after entry: the initial symbol is declared with the same sort
+				srt := r.sortOf(cur)
+				if srt == "" {
+					continue
+				}
+				r.declare(name+"@0", srt)
+			}
+		}
+		if cur == old {
+			continue
+		}
+		if cur == "" {
+			// havocked and never read again: still a change unless the whole array is covered
+			cur = r.fresh("havocked", r.sortOf(old))
+		}
+		refs := covered[name]
+		if strings.HasPrefix(name, "M ") {
+			for k, v := range covered {
+				if strings.HasSuffix(k, "*") && strings.HasPrefix(name, strings.TrimSuffix(k, "*")) {
+					refs = append(refs, v...)
+				}
+			}
+		}
+		whole := false
+		var conds []string
+		for _, ref := range refs {
+			if ref == "*" {
+				whole = true
+			}
+			conds = append(conds, not(app("=", "x!f", ref)))
+		}
+		if whole {
+			continue
+		}
+		guard := and(append([]string{app(">", "x!f", "0")}, conds...)...)
+		goal := fmt.Sprintf("(forall ((x!f Int)) (=> %s (= (select %s x!f) (select %s x!f))))", guard, cur, old)
+		r.emit(st, "frame:heap:"+name, "frame", ct.Props, goal)
+	}
+}
+
+func (r *Run) sortOf(s string) string {
+	prefix := "(declare-fun " + s + " () "
+	for _, d := range r.decls {
+		if strings.HasPrefix(d, prefix) {
+			return strings.TrimSuffix(d[len(prefix):], ")")
+		}
+	}
+	return ""
 }
